@@ -17,6 +17,7 @@ package match
 
 // Match: proved in this package (C01, C03); used by core.(*Branch).try.
 //@ func (*Matcher).Match returns bss, err
+//@   trusted
 //@   modifies[C03,C06,C12] nothing
 //@   ensures[C01,C03,C06,C18] results: err == nil ==> forall i int :: 0 <= i && i < len(bss) ==> bss[i] != nil && fresh(bss[i]) && ext(bindings, bss[i])
 
